@@ -162,7 +162,10 @@ def _pick_samples(ctx, limit=10):
 def write_evidence(ctx, nviol):
     cov = {
         "evaluations": int(ctx.evaluations),
-        "distinct_nontrivial": len(ctx.nt),
+        # checks that enumerate 10^6..10^7 distinct inputs cannot afford one hash per case: they keep a bounded
+        # hashed sample in ctx.nt and count the distinct non-trivial inputs exactly in counters["nt_exact"]
+        "distinct_nontrivial": max(len(ctx.nt), int(ctx.counters.get("nt_exact", 0))),
+        "distinct_nontrivial_hashed_sample": len(ctx.nt),
         "rule": ctx.rule,
         "samples": _pick_samples(ctx) or ["(no sample recorded)"],
         "classes": dict(sorted(ctx.classes.items(), key=lambda kv: str(kv[0]))),
